@@ -343,6 +343,22 @@ def config_ops(cfg, c=0, seg=True):
     if cfg.get('thou_first'):
         # the same configuration reached by calling the two separator setters in the other order
         ops[0], ops[1] = ops[1], ops[0]
+    if c == 0 and cfg.get('json_built'):
+        # the same calculator constructed the other public way: SmartCalc::load_from_json on the shipped configuration text, followed
+        # by the date patterns SmartCalc::default() registers
+        from . import core
+        ops = ([{'op': 'new_calc_json', 'c': c, 'path': os.path.join(core.REPO, 'src/json/config.json'), 'set': []}] +
+               [{'op': 'set_date_rule', 'c': c, 'lang': l_, 'patterns': p_} for l_, p_ in DEFAULT_DATE_PATTERNS]) + ops
+    elif c == 0 and cfg.get('restore_default'):
+        ops = [{'op': 'new_calc', 'c': c}] + ops
     if seg:
         ops[0]['seg'] = True
     return ops
+
+
+# what SmartCalc::default() passes to set_date_rule (src/smartcalc.rs)
+DEFAULT_DATE_PATTERNS = [
+    ('en', ['{MONTH:month} {NUMBER:day}, {NUMBER:year}', '{MONTH:month} {NUMBER:day} {NUMBER:year}', '{NUMBER:day}/{NUMBER:month}/{NUMBER:year}',
+            '{NUMBER:day} {MONTH:month} {NUMBER:year}', '{NUMBER:day} {MONTH:month}']),
+    ('tr', ['{NUMBER:day}/{NUMBER:month}/{NUMBER:year}', '{NUMBER:day} {MONTH:month} {NUMBER:year}', '{NUMBER:day} {MONTH:month}']),
+]
